@@ -141,8 +141,10 @@ func (s *dualSys) caseOf(op *Op) c03Case {
 func c03Alphabet(u *universe, thorough bool) alphabetConfig {
 	c := alphabetConfig{Repos: u.Repos, BadRepo: false, Chunked: true, MaxUploads: 1, MaxUpload: 3,
 		Manifests: []int{0, 1, 2, 3, 5, 6}, Blobs: []int{0, 1, 2}, Deletes: true, Mounts: true, BadPushes: true, UntaggedToo: true}
-	if len(u.Manifests) > 9 {
-		c.Manifests = append(c.Manifests, 9)
+	for i, m := range u.Manifests {
+		if m.Name == "mbig" || m.Name == "mparam" {
+			c.Manifests = append(c.Manifests, i)
+		}
 	}
 	return c
 }
